@@ -37,6 +37,34 @@ CHECKS = {
                      "pairs; GeneticAlgorithm.generate is driven with scripted children against a take-every-new-design model.",
                 note="Trusted: 10-line equality oracle; differences in (0, 1e-9) not generated.",
                 ref="DESIGN.md §3 C20"),
+    "C12": dict(cat="exploration", tech="runtime monitor: structural oracles on generator outputs (stratum matching, exact-rational radical inverse, grid set equality) under seeded and hostile RNG",
+                text="Every design returned by LHS/Halton/Uniform/Random generators over generated (n, N, box, seed) is judged against "
+                     "the defining structure; the numpy RandomState is replaced by a seeded/hostile one so edge draws (0, 1-2^-53) occur.",
+                note="Trusted: oracles (Fraction-based radical inverse, independent prime sieve); closed strata with 4-ulp slack.",
+                ref="DESIGN.md §3 C12"),
+    "C13": dict(cat="exploration", tech="runtime monitor: combinatorial oracles (itertools.product multiset equality, balance/orthogonality counts, BB corner set, GSD partition) on generator outputs",
+                text="Full factorial over random level lists, Plackett-Burman for every factor count 1..23, Box-Behnken n=3..9(10), GSD for "
+                     "all level lists x reductions in range: outputs compared with the combinatorial definition; finite sub-spaces are "
+                     "enumerated completely, bounds/levels are sampled.",
+                note="Trusted: oracles; documented ValueErrors of build_gsd counted, not judged. Known finding: GSDGenerator n>=2.",
+                ref="DESIGN.md §3 C13"),
+    "C15": dict(cat="exploration", tech="runtime monitor: totality/optimum-value oracle + adversarial search (random, pattern search) against the documented optimum",
+                text="Every single-objective benchmark in every accepted dimension is evaluated on corners, faces, interior and optimum "
+                     "neighbourhood as Python and numpy floats; documented optimum value checked at documented coordinates; a "
+                     "harness-side search tries to beat the documented optimum in the declared direction.",
+                note="A failed search is not a proof; tolerance 1e-3 as stated. Known finding: ModifiedEasom odd dimension.",
+                ref="DESIGN.md §3 C15"),
+    "C16": dict(cat="exploration", tech="runtime monitor: algebraic identity oracle (sum/norm with independently recomputed g) on random box points",
+                text="DTLZ1 sum, DTLZ2-4 norm, ZDT1 and bi-objective identities and non-negativity checked on thousands of box points "
+                     "with position variables at and near the box ends, m=2..6.",
+                note="Trusted: 10-line recomputation of g; relative tolerance 1e-9.",
+                ref="DESIGN.md §3 C16"),
+    "C17": dict(cat="exploration", tech="runtime monitor: recomputation oracle over harness-recorded individuals for every Results query; independent gd/epsilon implementations",
+                text="Recorded sets with unsorted tags, duplicates and maximised goals are queried through population/table/listings/"
+                     "find_optimum/pareto_front and compared with a direct recomputation; gd and epsilon_add are compared with "
+                     "independent implementations incl. the identical/shifted/subset laws.",
+                note="Trusted: oracles; no pairing demanded between parameters() and costs().",
+                ref="DESIGN.md §3 C17"),
 }
 
 NOT_BUILT = "check not built yet in this session (design in DESIGN.md §3); not claimed until its monitor exists"
